@@ -432,3 +432,5 @@ func vh_C06_L9_incomplete_message_is_never_delivered() {
 	vassert(err == nil && n == nf && vBytesEq(buf[:n], m.bytes) && ppi == PayloadTypeWebRTCString, "and is delivered whole")
 	vcover("end")
 }
+func vh_C06_L8_short_read_keeps_the_message()           { vh_C18_L3_short_buffer() }
+func vh_C06_L8_forward_tsn_names_only_skipped_streams() { vh_C07_L2_advance_only_over_abandoned() }
